@@ -1,8 +1,8 @@
 package utils
 
 import (
-	"errors"
 	"bufio"
+	"errors"
 	"io"
 
 	"github.com/evolbioinfo/goalign/align"
